@@ -152,6 +152,30 @@ def run(ctx):
         ok = bool(tb) and not esc
         ctx.ob("R-C03.3", oc, "truncates-when-inside-batch", ok, "on_close truncates to last_valid_pos whenever a batch is still open" if ok else "on_close can return with an open (incomplete) batch left in the file")
 
+    # ---- R-C03.3b the repaired file ends exactly at the last valid position (the writer appends at end-of-file)
+    for fid in ("journal::batch_reader::JournalBatchReader::truncate_to", "journal::reader::JournalReader::truncate_file"):
+        fn = ctx.fn(fid, "R-C03.3")
+        if not fn:
+            continue
+        og = ctx.og(fn)
+        sl = [(b, t) for b, t in fn.calls() if A.cname(t) == "std::fs::File::set_len"]
+        ok = len(sl) == 1
+        for b, t in sl:
+            ln = og.of_operand(t["args"][1])
+            ok = ok and ln.k == "param" and ln.a[0] == 2
+        grow = [A.cname(t) for b, t in fn.calls() if ("io::Write" in A.cname(t) or "io::Write" in (t.get("callee") or "") or "io::Seek" in A.cname(t) or "io::Seek" in (t.get("callee") or ""))
+                and A.cname(t).rsplit("::", 1)[-1] in ("write_all", "write", "seek", "write_vectored")]
+        ctx.ob("R-C03.3", fn, "repair-leaves-file-ending-at-valid-pos", ok and not grow,
+               "the only length change is set_len(pos): the file ends at the last valid byte, so appended batches follow it directly" if ok and not grow
+               else "after the repair the file does not end at the last valid position (%d set_len calls, extra writes %s): later appends land behind a gap and are unreadable" % (len(sl), grow))
+    wf = ctx.fn(R.WRITER + "::from_file", "R-C03.3")
+    if wf:
+        og = ctx.og(wf)
+        ap = [(b, t) for b, t in wf.calls() if A.cname(t) == "std::fs::OpenOptions::append"]
+        ok = bool(ap) and all(og.of_operand(t["args"][1]).k == "const" and og.of_operand(t["args"][1]).a == ("bool", True) for b, t in ap)
+        # the append-mode handle is the one wrapped by the BufWriter of the existing-file branch
+        ctx.ob("R-C03.3", wf, "recovered-journal-opened-in-append-mode", ok, "an existing journal is opened with append(true): new batches follow the repaired tail" if ok else "an existing journal is not opened in append mode")
+
     # ---- R-C03.4 recovery consumes batches, not entries
     cs = cg.callers(RAW_NEXT)
     ctx.floor("R-C03.4", "callers of JournalReader::next", cs, 1)
